@@ -699,7 +699,7 @@ func c16Specs(env *c16Env) []rpcSpec {
 		{name: "StreamingPull", newMsg: func() proto.Message { return &pubsubpb.StreamingPullRequest{StreamAckDeadlineSeconds: 10} },
 			ignore: []string{"subscriptions.expires_at", "deliveries.attempt_at", "deliveries.attempts", "deliveries.last_attempted_at", "deliveries.completed_at"},
 			fields: []field{
-				{"subscription", nameAlts(c16S2, "subscriptions", func(m proto.Message, v string) { m.(*pubsubpb.StreamingPullRequest).Subscription = v })},
+				{"subscription", nameAlts(c16S1, "subscriptions", func(m proto.Message, v string) { m.(*pubsubpb.StreamingPullRequest).Subscription = v })},
 				{"flow", []alt{
 					{"default", func(m proto.Message) {}},
 					{"negative", func(m proto.Message) {
@@ -713,6 +713,29 @@ func c16Specs(env *c16Env) []rpcSpec {
 					{"one", func(m proto.Message) {
 						r := m.(*pubsubpb.StreamingPullRequest)
 						r.MaxOutstandingMessages, r.MaxOutstandingBytes = 1, 1
+					}},
+					// byte limits just below / exactly at / just above the size of the
+					// backlog messages ({"i":N} = 7 bytes): the remaining budget passes
+					// through -1, 0 and 1 while messages are outstanding
+					{"bytes-6", func(m proto.Message) {
+						r := m.(*pubsubpb.StreamingPullRequest)
+						r.MaxOutstandingMessages, r.MaxOutstandingBytes = 10, 6
+					}},
+					{"bytes-7", func(m proto.Message) {
+						r := m.(*pubsubpb.StreamingPullRequest)
+						r.MaxOutstandingMessages, r.MaxOutstandingBytes = 10, 7
+					}},
+					{"bytes-8", func(m proto.Message) {
+						r := m.(*pubsubpb.StreamingPullRequest)
+						r.MaxOutstandingMessages, r.MaxOutstandingBytes = 10, 8
+					}},
+					{"bytes-14", func(m proto.Message) {
+						r := m.(*pubsubpb.StreamingPullRequest)
+						r.MaxOutstandingMessages, r.MaxOutstandingBytes = 10, 14
+					}},
+					{"messages-2", func(m proto.Message) {
+						r := m.(*pubsubpb.StreamingPullRequest)
+						r.MaxOutstandingMessages, r.MaxOutstandingBytes = 2, 1000
 					}},
 				}},
 				{"acks", ackAlts(env, func(m proto.Message, v []string) { m.(*pubsubpb.StreamingPullRequest).AckIds = v })[3:]},
